@@ -757,6 +757,44 @@ func isLoopIndex(p *ssa.Phi) bool {
 			}
 		}
 	}
+	// a counter running down from a loop-invariant start (for i := len(x)-1; i >= 0; i--)
+	for i := 0; i < 2; i++ {
+		b, ok := stripConv(edges[1-i]).(*ssa.BinOp)
+		if !ok || stripConv(b.X) != ssa.Value(p) {
+			continue
+		}
+		k, isC := constInt(b.Y)
+		if !isC || !(b.Op == token.SUB && k > 0 || b.Op == token.ADD && k < 0) {
+			continue
+		}
+		if init := stripConv(edges[i]); init != ssa.Value(p) && !mentionsPhi(init, 0) {
+			return true
+		}
+	}
+	return false
+}
+
+// mentionsPhi: the expression depends on a phi (is not invariant in the loops of its function).
+func mentionsPhi(v ssa.Value, d int) bool {
+	if d > 6 {
+		return true
+	}
+	switch x := v.(type) {
+	case *ssa.Phi:
+		return true
+	case *ssa.BinOp:
+		return mentionsPhi(x.X, d+1) || mentionsPhi(x.Y, d+1)
+	case *ssa.Convert:
+		return mentionsPhi(x.X, d+1)
+	case *ssa.UnOp:
+		return mentionsPhi(x.X, d+1)
+	case *ssa.Call:
+		for _, a := range x.Call.Args {
+			if mentionsPhi(a, d+1) {
+				return true
+			}
+		}
+	}
 	return false
 }
 
@@ -855,6 +893,8 @@ func literalElems(v ssa.Value) []ssa.Value {
 				continue
 			}
 			return nil
+		case *ssa.Global:
+			return globalArrayLiteral(x)
 		default:
 			return nil
 		}
